@@ -98,6 +98,23 @@ func mkTwinsB() interface{} {
 	return []Twin{{0, "tb[0].Owner", "tb[0].Title"}, {0, "tb[1].Owner", "tb[1].Title"}}
 }
 
+// two embedded structs that both lead to a field Author, the deeper one declared first
+type PAudit struct{ Author string }
+type PMeta struct {
+	PAudit
+	Stamp string
+}
+type PBy struct{ Author string }
+type pE struct {
+	PMeta
+	PBy
+	Title string
+}
+
+func mkE(p string) pE {
+	return pE{PMeta: PMeta{PAudit: PAudit{Author: p + ".PMeta.PAudit.Author"}, Stamp: p + ".PMeta.Stamp"}, PBy: PBy{Author: p + ".PBy.Author"}, Title: p + ".Title"}
+}
+
 func c11Context() *plush.Context {
 	ctx := plush.NewContext()
 	r, rp := mkR("r"), mkR("rp")
@@ -116,6 +133,10 @@ func c11Context() *plush.Context {
 	pm0 := map[string]pK{"a": mkK("pms[0][a]")}
 	ctx.Set("pms", []*map[string]pK{&pm0})
 	ctx.Set("im", map[int]pK{1: mkK("im[1]")})
+	ctx.Set("em", mkE("em"))
+	ctx.Set("ems", []pE{mkE("ems[0]")})
+	amb := mkK("am[b]")
+	ctx.Set("am", map[string]interface{}{"a": mkK("am[a]"), "b": &amb, "n": nil})
 	ctx.Set("i0", 0)
 	ctx.Set("i1", 1)
 	ctx.Set("i9", 9)
